@@ -191,6 +191,26 @@ def structure_rules(ctx):
 _c19_census = c19
 
 
+def same_name_rule(ctx, rule):
+    """the repeated-identifier test is the spelling-exact, derived equality of VariableName"""
+    from ..core import callee_def
+    F, rep = ctx.F, ctx.rep
+    fn = F.fn("linter::passes::missed_pronoun::MissedPronounPassImpl::match_or_update")
+    if fn is None:
+        rep.fail(rule, "anchor::match_or_update", "MissedPronounPassImpl::match_or_update not found")
+        return
+    rep.analysed(fn)
+    bodies = [b for b in common.bodies_with_helpers(F, fn, depth=1) if b.file == fn.file]
+    eqs = [t for b in bodies for bi, t in b.calls() if callee_def(t) == "std::cmp::PartialEq::eq" and "VariableName" in (t["callee"].get("inst") or "")]
+    other_cmp = sorted({(t["callee"].get("name") or "?") for b in bodies for bi, t in b.calls()
+                        if (t["callee"].get("name") or "") in ("to_lowercase", "to_uppercase", "eq_ignore_ascii_case", "to_ascii_lowercase", "to_ascii_uppercase", "render", "to_string", "cmp", "partial_cmp")
+                        or (callee_def(t) == "std::cmp::PartialEq::eq" and "VariableName" not in (t["callee"].get("inst") or ""))})
+    ok = len(eqs) == 1 and not other_cmp
+    rep.ob(rule, "same-name-is-derived-VariableName-equality", ok,
+           "" if ok else "match_or_update decides `the same name` with %s instead of exactly one derived VariableName equality: two mentions that are spelled differently (letter case, name kind) are reported as a repetition, or the reverse" % (other_cmp or "%d comparisons" % len(eqs)),
+           fn.loc(), how="last == name (derived PartialEq of VariableName), nothing else")
+
+
 def fresh_state(ctx, rule="C19.R6"):
     """C19.R6 / C10.R4: what a pass remembers during a walk does not survive into the next Linter::run"""
     F, rep = ctx.F, ctx.rep
@@ -337,3 +357,6 @@ def c19_full(ctx):
     _c19_census(ctx)
     structure_rules(ctx)
     fresh_state(ctx)
+    ctx.rep.rule("C19.R7", "`spells the same name`: the repeated-identifier pass compares the previous and the current mention with the derived "
+             "(spelling-exact, kind-exact) equality of VariableName and with nothing else -- no case folding, no rendering to text")
+    same_name_rule(ctx, "C19.R7")
